@@ -152,6 +152,13 @@ void drive(World* w, Sender snd) {
       //  when_all(never, always_inline) does complete inline when the never-child finishes on another thread first.)
       if (inline_here) usim_probe("NOTE never claim broken (outside C11)"); else usim_probe("never claim held");
     }
+    // is_always_scheduler_affine: consumers (task<>'s await_transform, with_scheduler_affinity) skip the hop back to their scheduler for
+    // such a sender. The receiver here reports the inline scheduler and every leaf's own claim is "affine iff always_inline", so a
+    // composite that claims affinity must complete on the thread that started it.
+    if constexpr (unifex::sender_traits<Sender>::is_always_scheduler_affine) {
+      KIT_CHECK(r.done_tid == start_tid, "c11.affine", "%s claims is_always_scheduler_affine but completed on T%d, not on the thread that started it (T%d)", w->case_name, r.done_tid, start_tid);
+      usim_probe("scheduler-affine claim checked");
+    }
     if (!sd) {
       KIT_CHECK(r.channel != CH_DONE, "c11.sends-done", "%s claims sends_done=false but completed with done (stop_mode %d)", w->case_name, w->stop_mode);
       usim_probe("sends_done=false claim checked");
